@@ -186,3 +186,35 @@ def callModel (net : FNet S M) (order : List Nat) (o : RunOpts S) (ext : Nat →
 /-- a free-running sequence of inputs (no forced feedback) -/
 def freeInputs (xs : List (Nat → Option S)) : List ((Nat → Option S) × Option (Nat → Option S)) :=
   xs.map fun x => (x, none)
+
+/-! ### operations that fail part-way (C08)
+
+  A forward function raises at step `k` of a sequence, when the nodes `pre` (a prefix of the
+  execution order) have already been evaluated in that step.  Everything done before the raise
+  persists; the context managers then unwind (`try/finally`): feedback proxies restored, states
+  restored when the operation is not stateful, proxies cleaned. -/
+
+/-- `Model.run` on one sequence, failing at step `k` after the nodes `pre` of that step -/
+def runSeqFail (net : FNet S M) (order : List Nat) (o : RunOpts S)
+    (inps : List ((Nat → Option S) × Option (Nat → Option S))) (k : Nat) (pre : List Nat)
+    (σ : Store S M) : Store S M :=
+  let σa := enterState net order (fun _ => none) o.reset σ
+  let σb := enterState net order o.fromState false σa
+  let σc := (loopM net order (loadProxys order true σb) (inps.take k)).2
+  let σp := match inps[k]? with
+    | none => σc
+    | some (x, none) => forwardF net x pre σc
+    | some (x, some forced) =>
+      let σe := enterFeedback net order forced σc
+      exitFeedback net order σc (forwardF net x pre σe)
+  let σd := exitState order o.stateful σa σp
+  let σe := cleanProxys order σd
+  exitState order o.stateful σ σe
+
+/-- `Model.call` failing after the nodes `pre` -/
+def callModelFail (net : FNet S M) (order : List Nat) (o : RunOpts S) (ext : Nat → Option S)
+    (pre : List Nat) (σ : Store S M) : Store S M :=
+  let σa := enterState net order o.fromState o.reset σ
+  let σb := loadProxys order true σa
+  let σc := forwardF net ext pre σb
+  cleanProxys order (exitState order o.stateful σ σc)
